@@ -11,6 +11,7 @@ from .vc import explore
 def run_script(desc, mode="proof", sizes=None, pinned=None, native=None, repo=None):
     S = Script(desc["name"], mode=mode, sizes=sizes, pinned=pinned, native=native)
     I = Interp(repo)
+    S.path_sat = {}
     t0 = time.time()
     err = None
 
@@ -27,6 +28,19 @@ def run_script(desc, mode="proof", sizes=None, pinned=None, native=None, repo=No
         except PyRaise as e:
             # an exception escaping the script itself (typically on a path that is infeasible but was not pruned)
             S.structural_failure("script-level " + e.exc_type + ": " + e.msg[:60])
+        # vacuity guard, every path of every script: "False" must not be provable from the path's hypotheses (nonlinear terms
+        # abstracted, deterministic resource limit).  Paths whose hypotheses are contradictory are counted separately; a script
+        # none of whose paths is satisfiable is an error (exit 3), never a success.
+        try:
+            import z3 as _z3
+            sv = _z3.Solver()
+            sv.set("rlimit", 3000000)
+            for h in abstract_nl(c.hyps(), c.__dict__.setdefault("_absmemo_prove", {})):
+                sv.add(h)
+            r = str(sv.check())
+        except Exception:
+            r = "unknown"
+        S.path_sat[r] = S.path_sat.get(r, 0) + 1
 
     try:
         explore(path, S)
@@ -40,6 +54,8 @@ def run_script(desc, mode="proof", sizes=None, pinned=None, native=None, repo=No
     except Exception as e:
         err = ("crash", traceback.format_exc()[-1500:])
     S.wall = time.time() - t0
+    if err is None and S.results and not (S.path_sat.get("sat") or S.path_sat.get("unknown")):
+        err = ("engine", "vacuous: the hypotheses of every path of this script are contradictory")
     S.error = err
     S.dropped = dict(I.dropped)
     S.executed = dict(I.executed)
